@@ -34,7 +34,7 @@ NONTRIV = {'removal', 'cross-namespace-link', 'hard-link', 'relocation', 'eltori
 
 
 def strategy(tier):
-    w = {'mixed': 5, 'growshrink': 2, 'deep': 2, 'links': 3, 'boot': 3, 'exactfill': 2, 'cegap': 2, 'samename': 2, 'ptedge': 1, 'bootlinks': 1, 'reloctwins': 1, 'readd': 2, 'symcomps': 1, 'rrfull': 1, 'twoboots': 1, 'linktwins': 1}
+    w = {'mixed': 5, 'growshrink': 2, 'deep': 2, 'links': 3, 'boot': 3, 'exactfill': 2, 'cegap': 2, 'samename': 2, 'ptedge': 1, 'bootlinks': 1, 'reloctwins': 1, 'readd': 2, 'symcomps': 1, 'rrfull': 1, 'twoboots': 1, 'linktwins': 1, 'fullcat': 1}
     if tier == 'thorough':
         w['manydirs'] = 1
     return st.tuples(gen.any_profile(reopen_ok=False, weights=w, with_manydirs=(tier == 'thorough')), st.sampled_from([1, 7, 512, 2048, 8192, 70000]))
